@@ -48,4 +48,6 @@ def names(scheme, q):
         return ["q%d" % i for i in range(q)]
     if scheme == "int":
         return list(range(q))
+    if scheme == "pre":        # one name is another name plus a digit (the renaming of shared names appends digits)
+        return ["q", "q0", "q00"][:q]
     raise ValueError(scheme)
